@@ -711,7 +711,28 @@ def _py_iso_tabulate(ctx) -> None:
                 "UTC": _dt.timezone.utc, "FixedTimezone": minieval.ClassStub(_new=lambda off, *a, **k: _dt.timezone(_dt.timedelta(seconds=off)), _isa=lambda v: False),
                 "Duration": minieval.ClassStub(_new=lambda *a, **k: minieval.Stub(_duration=True), _isa=lambda v: False), "Timezone": None}
         bad, n = [], 0
-        for text, want in PY_ISO:
+        table = list(PY_ISO)
+        if ctx.tier == "thorough":
+            # every day of years of each kind (common / leap, long / short ISO year, century) in the six date forms, alone and with a time
+            for y in (1583, 1999, 2000, 2004, 2015, 2016, 2020, 2021, 2100, 9999):
+                d = _dt.date(y, 1, 1)
+                while d.year == y:
+                    iy, iw, iwd = d.isocalendar()
+                    doy = d.timetuple().tm_yday
+                    forms = [f"{y:04d}-{d.month:02d}-{d.day:02d}", f"{y:04d}{d.month:02d}{d.day:02d}", f"{iy:04d}-W{iw:02d}-{iwd}", f"{iy:04d}W{iw:02d}{iwd}", f"{y:04d}-{doy:03d}", f"{y:04d}{doy:03d}"]
+                    if iy > 9999 or iy < 1:
+                        forms = forms[:2] + forms[4:]
+                    for f_ in forms:
+                        table.append((f_, ("date", d.year, d.month, d.day)))
+                    if d.day in (1, 15):
+                        table.append((forms[0] + "T23:59:59.999999-11:30", ("dt", d.year, d.month, d.day, 23, 59, 59, 999999, -41400)))
+                    if d == _dt.date.max:
+                        break
+                    d += _dt.timedelta(days=1)
+            for h in range(24):
+                for mi in (0, 29, 59):
+                    table.append((f"{h:02d}:{mi:02d}:07.5+{h % 15:02d}{mi:02d}", ("time", h, mi, 7, 500000, (h % 15) * 3600 + mi * 60)))
+        for text, want in table:
             n += 1
             try:
                 got = minieval.call(fn, [text], {}, {**funcs, "$globals": glob})
